@@ -10,3 +10,7 @@ add("C03","exploration",
     "Held on every request produced: thousands of requests of 14 generated kinds, about 1 GB of bytes compared per quick run, byte equality in both directions per request with random write segmentation on both sides.",
     "Trusted: the harness's own framing parser and the mock's per-request grouping; caching/plugins/custom commands are off so the permitted-difference set is empty; TLS dimensions not exercised.",
     "runtime monitoring: differential byte comparison at client and mock boundaries", "DESIGN.md 5 C03")
+add("C04","exploration",
+    "Held on every scenario produced: sweep-line bound over the mock's per-session working intervals, quiescent admin/mocks comparison, capacity probe with pool_size simultaneous transactions, client usability after pool errors; with injected server faults (close mid-reply, listener down).",
+    "Trusted: mock busy-interval bookkeeping; only sessions carrying client work are counted against pool_size; schedules are sampled.",
+    "runtime monitoring: interval-overlap oracle on mock log + admin console at quiescence + capacity probe", "DESIGN.md 5 C04")
